@@ -154,12 +154,20 @@ Step ==
               /\ UNCHANGED <<cid, stage, sub, ret, assoc, rcp, cell, liveB, liveC, nb, nc, flagval, nextPhase, nruns, err, iters>>
          [] i[1] = "again" ->
               \* end of a loop body: another iteration (bounded) or on
+              \* (conditions tested inside the body may be computed from the loop variable: they get a new valuation
+              \* in every iteration)
               /\ \E back \in BOOLEAN :
                     /\ (back => iters < MaxIters)
                     /\ pc' = IF back THEN i[2] ELSE pc + 1
                     /\ iters' = IF back THEN iters + 1 ELSE iters
                     /\ path' = Append(path, <<sub, pc, back>>)
-              /\ UNCHANGED <<cid, stage, sub, ret, assoc, rcp, cell, liveB, liveC, nb, nc, flagval, nextPhase, nruns, err>>
+                    /\ IF back
+                       THEN LET body == {x \in i[2]..pc : Ins[x][1] = "br"}
+                                names == (UNION {{Ins[x][3][j][1] : j \in DOMAIN Ins[x][3]} : x \in body} \cap DOMAIN flagval)
+                                         \cap SeqSet(P.loopflags)       \* computed condition variables only
+                            IN flagval' \in {f \in [DOMAIN flagval -> BOOLEAN] : \A n \in DOMAIN flagval \ names : f[n] = flagval[n]}
+                       ELSE flagval' = flagval
+              /\ UNCHANGED <<cid, stage, sub, ret, assoc, rcp, cell, liveB, liveC, nb, nc, nextPhase, nruns, err>>
          [] i[1] = "setphase" ->
               Next1 /\ nextPhase' = i[2] /\ UNCHANGED <<assoc, rcp, cell, liveB, liveC, nb, nc>>
          [] i[1] = "call" ->
